@@ -85,6 +85,8 @@ pub enum Timing {
     /// kiai on + velocity x2 at 1000, kiai off + velocity x1 at 1150, kiai on + velocity x0.5 at 1300 (effect points that
     /// coincide with object starts when the first object starts at 1000 and gaps are 150)
     T7,
+    /// beat length at the upper clamp (60 000 ms = 1 BPM): a 70 px slider lasts 30 s
+    T8,
 }
 
 #[derive(Clone, Debug, PartialEq, Eq, Hash)]
@@ -163,12 +165,13 @@ impl MapSpec {
             Timing::T5 => s.push_str("0,500,4,2,0,60,1,0\n500,NaN,4,2,0,60,0,0\n"),
             Timing::T6 => s.push_str("0,500,4,2,0,60,1,0\n1200,300,4,2,0,60,1,0\n"),
             Timing::T7 => s.push_str("0,500,4,2,0,60,1,0\n1000,-50,4,2,0,60,0,1\n1150,-100,4,2,0,60,0,0\n1300,-200,4,2,0,60,0,1\n"),
+            Timing::T8 => s.push_str("0,60000,4,2,0,60,1,0\n"),
         }
         s.push_str("\n[HitObjects]\n");
         let mut t = i64::from(self.first_start);
         let mut prev_end = t;
         // px per ms at the base timing (500 ms beats; T4 uses 6 ms beats) and velocity 1
-        let px_per_ms = 100.0 * sm / if self.timing == Timing::T4 { 6.0 } else { 500.0 };
+        let px_per_ms = 100.0 * sm / match self.timing { Timing::T4 => 6.0, Timing::T8 => 60000.0, _ => 500.0 };
         let (mut x, mut y) = (100 + (37 * i32::from(self.jitter)) % 300, 100 + (23 * i32::from(self.jitter)) % 200);
         let mut col: u32 = 0;
         let mut frac_prev_x: Option<i32> = None;
